@@ -20,6 +20,9 @@ import Proofs.C01.Entry2
 import Proofs.C01.CapstoneEntry2
 import Proofs.C01.Ctor
 import Proofs.C01.CapstoneCtor
+import Proofs.C01.Totality2
+import Proofs.C01.Tonelli
+import Proofs.C01.Sec2
 /-!
 # C01 — curve and field arithmetic compute exactly the group law (DESIGN.md §3 C01)
 
@@ -862,5 +865,92 @@ example : refusal (newCurve 43 0 7 2 13 31 1 true true) = some "Generator is not
 example : refusal (newCurve 43 0 0 2 12 31 1 true true) = some "zero discriminant" := by decide +kernel
 example : refusal (newCurve 43 0 7 2 12 37 1 true true) = some "n is not the group order: " := by decide +kernel
 example : Gen.C01Ctor.group_checks 43 0 7 = none := by decide +kernel
+
+/-! ## wave 5 — secp256k1 route totality, GLV bounds -/
+
+/-- `_mult_endomorphism_secp256k1(m, Q, ec, w)` ANSWERS for every scalar `m`, every `w ≥ 1`, `half_len ≥ 1` -/
+theorem mult_endomorphism_answers {α β : Type} (o : JacOps α β) (halfLen m w : ℕ) (hw : 1 ≤ w) (hs : 1 ≤ halfLen)
+    (Q : α) : ∃ r, multEndomorphism o halfLen m Q w = some r := multEndomorphism_answers o halfLen m w hw hs Q
+
+/-- `mult(m, Q, ec)` ANSWERS on EVERY curve, secp256k1's GLV route included, for every integer `m` and every `Q` that
+is the generator or passes `is_on_curve` -/
+theorem mult_entry_answers_all {α β : Type} (c : CurveCtx α β) (hc : CtxOkEndo c) (lam m : ℤ) (Q : β)
+    (hQ : c.eqAff Q c.G = true ∨ c.onCurve Q = some true) : ∃ A, multEntry c lam m Q = some A :=
+  multEntry_answers_all c hc lam m Q hQ
+
+/-- … whose side conditions hold for every real curve with `n ≥ 1` at the GENERATED `_ENDOMORPHISM_W`, `_HALF_LEN` -/
+theorem ctx_of_ok_endo (C : Curve) (hn : 0 < C.n) : CtxOkEndo (ctxOf C) := ctxOf_okEndo C hn
+
+section SecpTotal
+open Btc.E2E
+/-- so secp256k1's own pure-Python `mult` is TOTAL and CORRECT on `⟨G⟩`: it answers, and the answer is `m • Q` -/
+theorem mult_entry_secp256k1_total (lam : ℤ) (hlam : (lam : ZMod secp256k1_p) ≠ 0) (m : ℤ) (Q : Point)
+    (hon : (ctxOf EC.secp256k1).eqAff Q (ctxOf EC.secp256k1).G = true ∨ isOnCurveX cS Q = some true)
+    (hQ : AValid secp256k1_p cS Q) (hQH : absA secp256k1_p cS Q ∈ HG) :
+    ∃ A, multEntry (ctxOf EC.secp256k1) lam m Q = some A ∧ AValid secp256k1_p cS A ∧
+      absA secp256k1_p cS A = m • absA secp256k1_p cS Q := by
+  obtain ⟨A, hA⟩ := multEntry_answers_all (ctxOf EC.secp256k1) (ctxOf_okEndo _ secpOk.n_pos) lam m Q hon
+  exact ⟨A, hA, multEntry_secp256k1 lam hlam m Q A hQ hQH hA⟩
+end SecpTotal
+
+/-- **GLV bounds** on the function TRANSLATED from the source each run: for EVERY integer `m`,
+`_multiplier_decomposer(m) = (m₁, m₂)` has `|m₁|, |m₂| < 2^128 = 2^_HALF_LEN` — the double window of the secp256k1 route
+never needs more than `ceil(_HALF_LEN / w)` digits -/
+theorem glv_generated_bounds (m : ℤ) :
+    -(2 : ℤ) ^ 128 < (Gen.C01Glv.multiplier_decomposer m).1 ∧ (Gen.C01Glv.multiplier_decomposer m).1 < 2 ^ 128 ∧
+    -(2 : ℤ) ^ 128 < (Gen.C01Glv.multiplier_decomposer m).2 ∧ (Gen.C01Glv.multiplier_decomposer m).2 < 2 ^ 128 :=
+  generated_decomposer_bounds m
+
+theorem glv_half_len_is_128 : Gen.Curves.glv_HALF_LEN = 128 := by decide
+
+/-! ## wave 5 — T9: Tonelli–Shanks, `mod_sqrt_var` on EVERY prime -/
+
+/-- `tonelli_var(a, p)`: an answer is a reduced square root, every prime `p` -/
+theorem tonelli_sound {p : ℕ} [Fact p.Prime] (a r : ℤ) (h : NT.tonelliVar a (p : ℤ) = some r) :
+    (0 ≤ r ∧ r < p) ∧ (r : ZMod p) ^ 2 = (a : ZMod p) := NT.tonelliVar_sound a r h
+
+/-- `tonelli_var(a, p)` ANSWERS every quadratic residue: the non-residue search and the main loop terminate within the
+bounds the code gives them, every prime `p` -/
+theorem tonelli_answers {p : ℕ} [Fact p.Prime] (a : ℤ) (hsq : ∃ y : ZMod p, y ^ 2 = (a : ZMod p)) :
+    ∃ r, NT.tonelliVar a (p : ℤ) = some r := NT.tonelliVar_answers a hsq
+
+/-- **`mod_sqrt_var(a, p)` squares back, EVERY prime `p`, every integer `a`** (three branches: `p ≡ 3 (mod 4)`,
+`p ≡ 5 (mod 8)`, Tonelli–Shanks) -/
+theorem mod_sqrt_sound {p : ℕ} [Fact p.Prime] (a r : ℤ) (h : NT.modSqrtVar a (p : ℤ) = some r) :
+    (0 ≤ r ∧ r < p) ∧ (r : ZMod p) ^ 2 = (a : ZMod p) := NT.modSqrtVar_sound_prime a r h
+
+/-- **… and refuses EXACTLY the non-residues** (so every residue is answered) -/
+theorem mod_sqrt_refuses_iff {p : ℕ} [Fact p.Prime] (a : ℤ) :
+    NT.modSqrtVar a (p : ℤ) = none ↔ ∀ y : ZMod p, y ^ 2 ≠ (a : ZMod p) := NT.modSqrtVar_none_iff a
+
+example : NT.modSqrtVar 2 17 = some 6 := by decide +kernel
+example : NT.modSqrtVar 3 17 = none := by decide +kernel
+
+/-! ## wave 5 — T10 finished: compressed forms on every odd prime field -/
+
+/-- **`point_from_octets(02/03 ‖ x)` accepts EXACTLY** the `p_size + 1`-octet strings whose `x` is the abscissa of a
+finite point `Q` passing `is_on_curve` with the parity of `y` the prefix names (every odd prime `p`; the `x` of a point
+of order two, an off-curve `x`, `x ≥ p` are refused) -/
+theorem sec_compressed_accepted_iff {p : ℕ} [Fact p.Prime] (g : CurveGroup) (hg : g.p = (p : ℤ)) (hp2 : p ≠ 2)
+    (pSize : ℕ) (hybrid : Bool) (pfxB : UInt8) (body : Bytes) (Q : Point) (h23 : pfxB.toNat = 2 ∨ pfxB.toNat = 3) :
+    pointFromOctets g pSize hybrid (pfxB :: body) = .ok Q ↔
+      (pfxB :: body).length = pSize + 1 ∧ Q.1 = (ofBE body : ℤ) ∧ Q.2 ≠ 0 ∧ isOnCurveX g Q = some true ∧
+        Q.2 % 2 = (pfxB.toNat : ℤ) - 2 := pointFromOctets_compressed_iff g hg hp2 pSize hybrid pfxB body Q h23
+
+/-- whatever `point_from_octets` answers — ANY prefix byte, hybrid or not, every odd prime field — is a finite reduced
+point of the curve (with `sec_both_coordinates_accepted_iff` for 04/06/07 and `sec_other_prefix_refused`) -/
+theorem sec_answer_is_on_curve_prime {p : ℕ} [Fact p.Prime] (g : CurveGroup) (hg : g.p = (p : ℤ)) (hp2 : p ≠ 2)
+    (pSize : ℕ) (hybrid : Bool) (b : Bytes) (Q : Point) (h : pointFromOctets g pSize hybrid b = .ok Q) :
+    Q.2 ≠ 0 ∧ isOnCurveX g Q = some true := pointFromOctets_on_curve_prime g hg hp2 pSize hybrid b Q h
+
+/-- compressed round trip: `point_from_octets(bytes_from_point(Q, compressed=True)) = Q` -/
+theorem sec_roundtrip_compressed {p : ℕ} [Fact p.Prime] (g : CurveGroup) (hg : g.p = (p : ℤ)) (hp2 : p ≠ 2)
+    (pSize : ℕ) (hybrid : Bool) (Q : Point) (b : Bytes) (hps : g.p ≤ 256 ^ pSize)
+    (h : bytesFromPoint g pSize Q true = some b) : pointFromOctets g pSize hybrid b = .ok Q :=
+  pointFromOctets_bytesFromPoint_compressed g hg hp2 pSize hybrid Q b hps h
+
+example : pointFromOctets Toy.toyC.toCurveGroup 1 false [2, 2] = .ok (2, 12) := by decide +kernel
+example : pointFromOctets Toy.toyC.toCurveGroup 1 true [6, 2, 13] = .error .parity := by decide +kernel
+example : pointFromOctets Toy.toyC.toCurveGroup 1 true [7, 2, 13] = .error .offCurve := by decide +kernel
 
 end Props.C01
